@@ -7,7 +7,7 @@ FUNCTIONS = ["Traph.paginate_webentity_pages", "LRUTrie.webentity_inorder_iter",
              "helpers.parse_pagination_token", "helpers.int_to_base64", "helpers.base64_to_int", "helpers.int_to_base4",
              "helpers.base4_append", "Traph.get_webentity_pages"]
 REQUIRED = ["paginate:complete", "paginate:order", "paginate:page-size", "paginate:done-flag", "paginate:counts",
-            "paginate:no-repeat", "paginate:no-skip", "codec:roundtrip", "reach:two-prefixes", "reach:crawled-only",
+            "paginate:no-repeat", "paginate:no-skip", "codec:roundtrip", "codec:path-digits", "reach:two-prefixes", "reach:crawled-only",
             "reach:insertion-between-calls", "reach:resumed", "reach:nested-foreign", "reach:k-exact-multiple"]
 OUTSIDE = ["more than 5 pages / 3 prefixes; token paths of more than 12 base-64 digits (tries deeper/wider than 36 left/child/right moves)",
            "one insertion between calls (any position)"]
@@ -19,6 +19,7 @@ def levels(tier):
     if tier == "quick":
         return [
             {"name": "codec", "mode": "codec", "digits": [1, 2, 3, 6], "prefix_indices": [0, 3, 12]},
+            {"name": "path", "mode": "path", "moves": [1, 5, 16, 31, 32, 33, 40]},
             {"name": "tpl-n1", "mode": "pages", "n": 1, "prelude": TPL, "alphabet": ["we", "addprefix", "page"], "defaults": ["never"],
              "pool": POOL5, "ks": [1, 2, 3, 6], "insert": False},
             {"name": "insert", "mode": "pages", "n": 0, "prelude": TPL + [["we", [[3, 3]]]], "alphabet": ["page"], "defaults": ["never"],
@@ -26,6 +27,7 @@ def levels(tier):
         ]
     return [
         {"name": "codec", "mode": "codec", "digits": [1, 2, 3, 4, 6, 8, 12], "prefix_indices": [0, 1, 9, 10, 123]},
+        {"name": "path", "mode": "path", "moves": [1, 2, 3, 5, 8, 16, 24, 31, 32, 33, 36, 40, 48, 64]},
         {"name": "tpl-n2", "mode": "pages", "n": 2, "prelude": TPL, "alphabet": ["we", "addprefix", "page", "moveprefix"], "defaults": ["never", "domain"],
          "pool": POOL5, "ks": [1, 2, 3, 4, 5, 6], "insert": True},
         {"name": "n3", "mode": "pages", "n": 3, "alphabet": ["page", "we", "addprefix"], "defaults": ["never"],
@@ -45,6 +47,25 @@ def codec(E, P):
     E.check(back[0] == i, "codec:roundtrip", "prefix index %r came back as %r" % (i, back[0]))
     E.check(back[1] == path, "codec:roundtrip", "a path does not survive build/parse of the token")
     E.observe("token", tok)
+
+
+def path_codec(E, P):
+    """the path integer is built move by move (1 left, 2 child, 3 right) and read back digit by digit:
+    for every sequence of k moves, int_to_base4(fold(base4_append)) spells the moves"""
+    h = E.module("traph.helpers")
+    k = P["moves"][E.choose("moves", len(P["moves"]))]
+    W = 2 * k + 10
+    ops = [E.int("m%d" % i, 1, 3, bv=W) for i in range(k)]
+    p = 0
+    for op in ops:
+        ok, p = E.call("base4_append", h.base4_append, p, op, _allowed=())
+    ok, text = E.call("int_to_base4", h.int_to_base4, p, _allowed=())
+    E.check(len(text) == k, "codec:path-digits", "%d moves are spelled with %d digits" % (k, len(text)))
+    for i, op in enumerate(ops):
+        d = text[i:i + 1]
+        E.check(E.all(E.implies(op == 1, d == "1"), E.implies(op == 2, d == "2"), E.implies(op == 3, d == "3")),
+                "codec:path-digits", "move %d is not read back from the path integer" % i)
+    E.observe("path", text)
 
 
 def model_pages(E, ref, weid, prefix_lrus, crawled_only):
@@ -171,4 +192,6 @@ def harness(E):
     P = E.params
     if P["mode"] == "codec":
         return codec(E, P)
+    if P["mode"] == "path":
+        return path_codec(E, P)
     return pages_mode(E, P)
